@@ -471,26 +471,37 @@ fn verify<B: Image>(art: &mut Artifact<B>, model: &[ModelLayer], name: &Option<S
             }
         }
     }
-    match art.get_instances() {
-        Err(e) => p.errors.push(format!("get_instances: {e:#}")),
-        Ok(v) => {
-            let want: Vec<&Msg> = model.iter().filter(|m| m.kind == Kind::Instance).map(|m| &m.msg).collect();
-            let got: Vec<Msg> = v.into_iter().map(|(_, m)| Msg::Instance(m)).collect();
-            if got.len() != want.len() || got.iter().zip(&want).any(|(a, b)| a != *b) {
-                p.diffs.push(("get-instances".into(), format!("get_instances returned {} messages, {} instances were stored, or the order/content differs", got.len(), want.len())));
+    // list accessors: the j-th entry is the j-th stored layer of that kind - message, and the descriptor it was
+    // stored under (media type, digest, annotations)
+    macro_rules! check_list {
+        ($call:ident, $kind:expr, $wrap:path, $class:expr) => {
+            match art.$call() {
+                Err(e) => p.errors.push(format!("{}: {e:#}", stringify!($call))),
+                Ok(v) => {
+                    let want: Vec<usize> = (0..model.len()).filter(|j| model[*j].kind == $kind).collect();
+                    if v.len() != want.len() {
+                        p.diffs.push(($class.into(), format!("{} returned {} messages, {} were stored", stringify!($call), v.len(), want.len())));
+                    } else {
+                        for (pos, ((desc, m), j)) in v.into_iter().zip(&want).enumerate() {
+                            let ml = &model[*j];
+                            if $wrap(m) != ml.msg {
+                                p.diffs.push(($class.into(), format!("{} entry {pos}: the message differs from the {pos}-th stored one (order or content)", stringify!($call))));
+                            }
+                            let ann = desc.annotations().clone().unwrap_or_default();
+                            if desc.media_type() != &$kind.media_type() || desc.digest() != &digests[*j].to_string() || ann != ml.ann {
+                                p.diffs.push((
+                                    format!("{}-descriptor", $class),
+                                    format!("{} entry {pos}: descriptor ({}, {}, {:?}) is not the one the layer was stored under ({}, {}, {:?})", stringify!($call), desc.media_type(), desc.digest(), ann, $kind.media_type(), digests[*j], ml.ann),
+                                ));
+                            }
+                        }
+                    }
+                }
             }
-        }
+        };
     }
-    match art.get_solutions() {
-        Err(e) => p.errors.push(format!("get_solutions: {e:#}")),
-        Ok(v) => {
-            let want: Vec<&Msg> = model.iter().filter(|m| m.kind == Kind::Solution).map(|m| &m.msg).collect();
-            let got: Vec<Msg> = v.into_iter().map(|(_, m)| Msg::Solution(m)).collect();
-            if got.len() != want.len() || got.iter().zip(&want).any(|(a, b)| a != *b) {
-                p.diffs.push(("get-solutions".into(), format!("get_solutions returned {} messages, {} solutions were stored, or the order/content differs", got.len(), want.len())));
-            }
-        }
-    }
+    check_list!(get_instances, Kind::Instance, Msg::Instance, "get-instances");
+    check_list!(get_solutions, Kind::Solution, Msg::Solution, "get-solutions");
     match (name, art.get_name()) {
         (Some(n), Ok(g)) => {
             if &g.to_string() != n {
